@@ -13,7 +13,7 @@ import (
 
 var c18Leaf *x509.Certificate
 
-//verif:stub github.com/google/certificate-transparency-go/x509.ParseCertificate files=cert_checker.go
+//verif:stub github.com/google/certificate-transparency-go/x509.ParseCertificate files=*
 func c18ParseCertificate(b []byte) (*x509.Certificate, error) { return c18Leaf, nil }
 
 //verif:stub (*github.com/google/certificate-transparency-go/x509.Certificate).Verify files=cert_checker.go method=Verify
